@@ -26,22 +26,146 @@ theorem printer_covers_right (p : BinOp) (r : PExp) (h : needParenRight p r = tr
     revert h; cases p <;> cases c <;> decide
   | _ => simp [needParenRight] at h
 
+/-- trees the printer writes in a form the parser reads back (token level): the printable fragment without the
+lexical conditions on names — integer literals within `i64`, names that are no keywords, known block kinds with
+the right number of members, as many iteration variables as iterators, no float / string index of a compound
+variable, arrays of integers -/
+def WFx : PExp → Prop
+  | .int v => v ≤ i64Max
+  | .num _ => True
+  | .bool _ => True
+  | .str _ => True
+  | .prim d => ∃ ns : List Nat, intArrayOf d = some ns ∧ (∀ v ∈ ns, v ≤ i64Max) ∧
+      d = arrayText (ns.map fun v => String.ofList (natDigits v))
+  | .var n => isKeyword n = false
+  | .cvar _ idx => idx ≠ [] ∧ WFidx idx
+  | .access n idx => n ≠ "not" ∧ n ≠ "_" ∧ idx ≠ [] ∧ WFxs idx
+  | .call n args => isFunctionName n = true ∧ n ≠ "not" ∧ WFxs args
+  | .block k es => isFunctionName k = true ∧ k ≠ "not" ∧ canonKind Gen.blockKinds k = k ∧ blockKindErr k es.length = none
+      ∧ es ≠ [] ∧ WFxs es
+  | .scoped k vs its b => isFunctionName k = true ∧ k ≠ "not" ∧ canonKind Gen.scopedKinds k = k ∧ scopedKindErr k = none
+      ∧ WFits vs its ∧ WFx b
+  | .un _ e => WFx e
+  | .bin _ l r => WFx l ∧ WFx r
+where
+  WFxs : List PExp → Prop
+    | [] => True
+    | a :: as => WFx a ∧ WFxs as
+  WFidx : List PExp → Prop
+    | [] => True
+    | .var _ :: es => WFidx es
+    | .num _ :: _ => False
+    | .str _ :: _ => False
+    | e :: es => WFx e ∧ WFidx es
+  /-- as many variables as iterators, at least one, no empty tuple -/
+  WFits : List IterVar → List PExp → Prop
+    | [v], [e] => WFvar v ∧ WFit e
+    | v :: v2 :: vs, e :: e2 :: es => WFvar v ∧ WFit e ∧ WFits (v2 :: vs) (e2 :: es)
+    | _, _ => False
+  WFit : PExp → Prop
+    | .call "range" [a, b, .bool _] => WFx a ∧ WFx b
+    | e => WFx e
+  WFvar : IterVar → Prop
+    | .single n => n ≠ "_"
+    | .tuple ns => ns ≠ []
+
+theorem intArrToks_map (ns : List Nat) :
+    (ns.map fun v => Tok.int (String.ofList (natDigits v))).intersperse .comma ++ [.rbrack]
+      = intArrToks (ns.map fun v => String.ofList (natDigits v)) := by
+  induction ns with
+  | nil => rfl
+  | cons v vs ih =>
+    cases vs with
+    | nil => rfl
+    | cons w ws =>
+      simp only [List.map_cons, List.intersperse_cons_cons, List.cons_append, intArrToks] at ih ⊢
+      rw [ih]
+
+theorem intArrayToks_eq (ns : List Nat) :
+    intArrayToks ns = .lbrack :: intArrToks (ns.map fun v => String.ofList (natDigits v)) := by
+  unfold intArrayToks
+  rw [List.cons_append, intArrToks_map]
+
+theorem tupleToks_eq (n : String) (ns : List String) :
+    ((n :: ns).map Tok.word).intersperse .comma = .word n :: (ns.flatMap fun m => [Tok.comma, Tok.word m]) := by
+  induction ns generalizing n with
+  | nil => rfl
+  | cons m ms ih =>
+    have := ih m
+    simp only [List.map_cons, List.intersperse_cons_cons, List.flatMap_cons, List.cons_append, List.nil_append] at this ⊢
+    rw [this]
+
+theorem iterVarToks_head : (v : IterVar) → WFx.WFvar v → IterHead v (iterVarToks v)
+  | .single n, h => IterHead.single n h
+  | .tuple [], h => absurd rfl h
+  | .tuple (n :: ns), _ => by
+    have : iterVarToks (.tuple (n :: ns)) = .lpar :: .word n :: (ns.flatMap fun m => [Tok.comma, Tok.word m]) ++ [.rpar] := by
+      simp only [iterVarToks, List.cons_append]
+      rw [tupleToks_eq]; rfl
+    rw [this]
+    exact IterHead.tuple n ns
+
 mutual
-theorem fmt_tk : (t : PExp) → WF t →
+theorem fmt_tk : (t : PExp) → WFx t →
     ∃ items, Tk t (fmtToks t) items ∧ (t.isLeaf = true → items = [.leaf t])
   | .int v, h => by
+    simp only [WFx] at h
     refine ⟨[.leaf (.int v)], ?_, fun _ => rfl⟩
-    have := Atom.int (String.ofList (natDigits v)) (by simpa [WF, digitsToNat_natDigits] using h)
+    have := Atom.int (String.ofList (natDigits v)) (by simpa [digitsToNat_natDigits] using h)
     simp only [String.toList_ofList, digitsToNat_natDigits] at this
+    simp only [fmtToks]
     exact Tk.atom this
-  | .num s, _ => ⟨[.leaf (.num s)], Tk.atom (Atom.num s), fun _ => rfl⟩
-  | .bool true, _ => ⟨[.leaf (.bool true)], Tk.atom Atom.tt, fun _ => rfl⟩
-  | .bool false, _ => ⟨[.leaf (.bool false)], Tk.atom Atom.ff, fun _ => rfl⟩
-  | .var n, h => ⟨[.leaf (.var n)], Tk.atom (Atom.var n h), fun _ => rfl⟩
+  | .num s, _ => ⟨[.leaf (.num s)], by simp only [fmtToks]; exact Tk.atom (Atom.num s), fun _ => rfl⟩
+  | .bool true, _ => ⟨[.leaf (.bool true)], by simp only [fmtToks]; exact Tk.atom Atom.tt, fun _ => rfl⟩
+  | .bool false, _ => ⟨[.leaf (.bool false)], by simp only [fmtToks]; exact Tk.atom Atom.ff, fun _ => rfl⟩
+  | .str s, _ => ⟨[.leaf (.str s)], by simp only [fmtToks]; exact Tk.atom (Atom.str s), fun _ => rfl⟩
+  | .var n, h => by
+    simp only [WFx] at h
+    exact ⟨[.leaf (.var n)], by simp only [fmtToks]; exact Tk.atom (Atom.var n h), fun _ => rfl⟩
+  | .prim d, h => by
+    simp only [WFx] at h
+    obtain ⟨ns, hd, hle, hdt⟩ := h
+    refine ⟨[.leaf (.prim d)], ?_, fun _ => rfl⟩
+    have hk := Tk.arr (ss := ns.map fun v => String.ofList (natDigits v)) (by
+      intro s hs
+      simp only [List.mem_map] at hs
+      obtain ⟨v, hv, rfl⟩ := hs
+      simpa [digitsToNat_natDigits] using hle v hv)
+    have hmap : ((ns.map fun v => String.ofList (natDigits v)).map fun s => String.ofList (natDigits (digitsToNat s.toList)))
+        = ns.map fun v => String.ofList (natDigits v) := by
+      simp [List.map_map, Function.comp_def, digitsToNat_natDigits]
+    rw [hmap, ← hdt] at hk
+    simp only [fmtToks, hd, intArrayToks_eq]
+    exact hk
+  | .cvar n [], h => by simp [WFx] at h
+  | .cvar n (e :: es), h => by
+    simp only [WFx] at h
+    have hi := fmtIdx_tk (e :: es) h.2
+    exact ⟨[.leaf (.cvar n (e :: es))], by simp only [fmtToks]; exact Tk.cvar hi, fun _ => rfl⟩
+  | .access n [], h => by simp [WFx] at h
+  | .access n (e :: es), h => by
+    simp only [WFx] at h
+    have hi := fmtAcc_tk (e :: es) h.2.2.2
+    exact ⟨[.leaf (.access n (e :: es))], by simp only [fmtToks]; exact Tk.access h.1 h.2.1 hi, fun _ => rfl⟩
   | .call n args, h => by
+    simp only [WFx] at h
     have ha := fmtArgs_tk args h.2.2
-    exact ⟨[.leaf (.call n args)], by simpa [fmtToks] using Tk.call h.1 h.2.1 ha, fun _ => rfl⟩
+    exact ⟨[.leaf (.call n args)], by simp only [fmtToks]; exact Tk.call h.1 h.2.1 ha, fun _ => rfl⟩
+  | .block k [], h => by simp [WFx] at h
+  | .block k (e :: es), h => by
+    simp only [WFx] at h
+    have ha := fmtArgs_tk (e :: es) h.2.2.2.2.2
+    exact ⟨[.leaf (.block k (e :: es))], by simp only [fmtToks]; exact Tk.block h.1 h.2.1 h.2.2.1 h.2.2.2.1 ha, fun _ => rfl⟩
+  | .scoped k vs its b, h => by
+    simp only [WFx] at h
+    have hi := fmtIters_tk vs its h.2.2.2.2.1
+    obtain ⟨items, hb, _⟩ := fmt_tk b h.2.2.2.2.2
+    refine ⟨[.leaf (.scoped k vs its b)], ?_, fun _ => rfl⟩
+    have := Tk.scoped h.1 h.2.1 h.2.2.1 h.2.2.2.1 hi hb
+    simp only [fmtToks]
+    simpa using this
   | .un u e, h => by
+    simp only [WFx] at h
     obtain ⟨items, hk, hleaf⟩ := fmt_tk e h
     refine ⟨[.op (docUnRule u), .leaf e], ?_, fun hl => by simp [PExp.isLeaf] at hl⟩
     simp only [fmtToks]
@@ -52,6 +176,7 @@ theorem fmt_tk : (t : PExp) → WF t →
     · simp only [he]
       exact Tk.un (Tk.paren hk) (unKwTok_mem u)
   | .bin o l r, h => by
+    simp only [WFx] at h
     obtain ⟨il, hl, _⟩ := fmt_tk l h.1
     obtain ⟨ir, hr, _⟩ := fmt_tk r h.2
     refine ⟨(if printsParen o false l then [.leaf l] else il) ++ .op (docRule o) ::
@@ -80,17 +205,143 @@ theorem fmt_tk : (t : PExp) → WF t →
         by_cases hn : needParenRight o r = true
         · exact absurd (printer_covers_right o r hn) hp
         · simpa using hn
-  | .str _, h | .prim _, h | .cvar _ _, h | .access _ _, h | .block _ _, h | .scoped _ _ _ _, h => by
-    simp [WF] at h
-theorem fmtArgs_tk : (args : List PExp) → WF.WFs args → Args args (fmtToksArgs args)
-  | [], _ => Args.nil
+termination_by t => (sizeOf t, 0)
+theorem fmtArgs_tk : (args : List PExp) → WFx.WFxs args → Args args (fmtToksArgs args)
+  | [], _ => by simp only [fmtToksArgs]; exact Args.nil
   | [a], h => by
+    simp only [WFx.WFxs] at h
     obtain ⟨items, hk, _⟩ := fmt_tk a h.1
-    simpa [fmtToksArgs] using Args.one hk
+    simp only [fmtToksArgs]; exact Args.one hk
   | a :: b :: rest, h => by
+    simp only [WFx.WFxs] at h
     obtain ⟨items, hk, _⟩ := fmt_tk a h.1
-    have hr' := fmtArgs_tk (b :: rest) h.2
-    simpa [fmtToksArgs] using Args.cons hk hr'
+    have hr' := fmtArgs_tk (b :: rest) (by simp only [WFx.WFxs]; exact h.2)
+    simp only [fmtToksArgs]; exact Args.cons hk hr'
+termination_by args => (sizeOf args, 0)
+theorem fmtIdx_tk : (idx : List PExp) → WFx.WFidx idx → Idx idx (fmtToksIdx idx)
+  | [], _ => by simp only [fmtToksIdx]; exact Idx.nil
+  | .var i :: es, h => by
+    simp only [WFx.WFidx] at h
+    have := fmtIdx_tk es h
+    simp only [fmtToksIdx]; exact Idx.var (i := i) this
+  | .int v :: es, h => by
+    simp only [WFx.WFidx, WFx] at h
+    have hr := fmtIdx_tk es h.2
+    have := Idx.int (s := String.ofList (natDigits v)) (by simpa [digitsToNat_natDigits] using h.1) hr
+    simp only [String.toList_ofList, digitsToNat_natDigits] at this
+    simp only [fmtToksIdx]; exact this
+  | .num _ :: _, h => by simp [WFx.WFidx] at h
+  | .str _ :: _, h => by simp [WFx.WFidx] at h
+  | .bool b :: es, h => by
+    simp only [WFx.WFidx] at h
+    obtain ⟨items, hk, _⟩ := fmt_tk (.bool b) h.1
+    simp only [fmtToksIdx]; exact Idx.brace hk (fmtIdx_tk es h.2)
+  | .prim d :: es, h => by
+    simp only [WFx.WFidx] at h
+    obtain ⟨items, hk, _⟩ := fmt_tk (.prim d) h.1
+    simp only [fmtToksIdx]; exact Idx.brace hk (fmtIdx_tk es h.2)
+  | .cvar n i :: es, h => by
+    simp only [WFx.WFidx] at h
+    obtain ⟨items, hk, _⟩ := fmt_tk (.cvar n i) h.1
+    simp only [fmtToksIdx]; exact Idx.brace hk (fmtIdx_tk es h.2)
+  | .access n i :: es, h => by
+    simp only [WFx.WFidx] at h
+    obtain ⟨items, hk, _⟩ := fmt_tk (.access n i) h.1
+    simp only [fmtToksIdx]; exact Idx.brace hk (fmtIdx_tk es h.2)
+  | .call n i :: es, h => by
+    simp only [WFx.WFidx] at h
+    obtain ⟨items, hk, _⟩ := fmt_tk (.call n i) h.1
+    simp only [fmtToksIdx]; exact Idx.brace hk (fmtIdx_tk es h.2)
+  | .block n i :: es, h => by
+    simp only [WFx.WFidx] at h
+    obtain ⟨items, hk, _⟩ := fmt_tk (.block n i) h.1
+    simp only [fmtToksIdx]; exact Idx.brace hk (fmtIdx_tk es h.2)
+  | .scoped k vs its b :: es, h => by
+    simp only [WFx.WFidx] at h
+    obtain ⟨items, hk, _⟩ := fmt_tk (.scoped k vs its b) h.1
+    simp only [fmtToksIdx]; exact Idx.brace hk (fmtIdx_tk es h.2)
+  | .bin o l r :: es, h => by
+    simp only [WFx.WFidx] at h
+    obtain ⟨items, hk, _⟩ := fmt_tk (.bin o l r) h.1
+    simp only [fmtToksIdx]; exact Idx.brace hk (fmtIdx_tk es h.2)
+  | .un o e :: es, h => by
+    simp only [WFx.WFidx] at h
+    obtain ⟨items, hk, _⟩ := fmt_tk (.un o e) h.1
+    simp only [fmtToksIdx]; exact Idx.brace hk (fmtIdx_tk es h.2)
+termination_by idx => (sizeOf idx, 0)
+theorem fmtAcc_tk : (idx : List PExp) → WFx.WFxs idx → Acc idx (fmtToksAcc idx)
+  | [], _ => by simp only [fmtToksAcc]; exact Acc.nil
+  | e :: es, h => by
+    simp only [WFx.WFxs] at h
+    obtain ⟨items, hk, _⟩ := fmt_tk e h.1
+    simp only [fmtToksAcc]; exact Acc.cons hk (fmtAcc_tk es h.2)
+termination_by idx => (sizeOf idx, 0)
+theorem fmtIters_tk : (vs : List IterVar) → (its : List PExp) → WFx.WFits vs its → Iters vs its (fmtToksIters vs its)
+  | [v], [e], h => by
+    simp only [WFx.WFits] at h
+    have := Iters.one (inw := "in") (iterVarToks_head v h.1) (by decide) (fmtIter_tk e h.2)
+    simp only [fmtToksIters]; exact this
+  | v :: v2 :: vs, e :: e2 :: es, h => by
+    simp only [WFx.WFits] at h
+    have hr := fmtIters_tk (v2 :: vs) (e2 :: es) h.2.2
+    have := Iters.cons (inw := "in") (iterVarToks_head v h.1) (by decide) (fmtIter_tk e h.2.1) hr
+    simp only [fmtToksIters]; simpa using this
+  | [], _, h => by simp [WFx.WFits] at h
+  | [_], [], h => by simp [WFx.WFits] at h
+  | [_], _ :: _ :: _, h => by simp [WFx.WFits] at h
+  | _ :: _ :: _, [], h => by simp [WFx.WFits] at h
+  | _ :: _ :: _, [_], h => by simp [WFx.WFits] at h
+termination_by vs its => (sizeOf its, 0)
+theorem fmtIter_tk : (e : PExp) → WFx.WFit e → Iter e (fmtToksIter e)
+  | e, h => by
+    unfold fmtToksIter
+    split
+    · rename_i a b incl
+      simp only [WFx.WFit] at h
+      obtain ⟨ia, ha, hla⟩ := fmt_tk a h.1
+      obtain ⟨ib, hb, hlb⟩ := fmt_tk b h.2
+      have hA : ∃ ia', Tk a (if a.isLeaf then fmtToks a else parenToks (fmtToks a)) ia' := by
+        by_cases hl : a.isLeaf = true
+        · simp only [hl, if_true]; exact ⟨ia, ha⟩
+        · simp only [hl]; exact ⟨_, Tk.paren ha⟩
+      have hB : ∃ ib', Tk b (if b.isLeaf then fmtToks b else parenToks (fmtToks b)) ib' := by
+        by_cases hl : b.isLeaf = true
+        · simp only [hl, if_true]; exact ⟨ib, hb⟩
+        · simp only [hl]; exact ⟨_, Tk.paren hb⟩
+      obtain ⟨ia', hA⟩ := hA
+      obtain ⟨ib', hB⟩ := hB
+      exact Iter.range (incl := incl) hA hB
+    · rename_i hne
+      have hw : WFx e := by
+        unfold WFx.WFit at h
+        split at h
+        · rename_i a b incl; exact absurd rfl (hne a b incl)
+        · exact h
+      obtain ⟨items, hk, _⟩ := fmt_tk e hw
+      exact Iter.set hk
+termination_by e => (sizeOf e, 1)
+end
+
+mutual
+/-- the expression sub-language of C09 is part of the printable fragment -/
+theorem wf_wfx : (t : PExp) → WF t → WFx t
+  | .int v, h => by simpa [WF, WFx] using h
+  | .num _, _ => by simp [WFx]
+  | .bool _, _ => by simp [WFx]
+  | .var n, h => by simpa [WF, WFx] using h
+  | .call n args, h => by
+    simp only [WF] at h
+    simp only [WFx]
+    exact ⟨h.1, h.2.1, wfs_wfxs args h.2.2⟩
+  | .un _ e, h => by simp only [WF] at h; simp only [WFx]; exact wf_wfx e h
+  | .bin _ l r, h => by simp only [WF] at h; simp only [WFx]; exact ⟨wf_wfx l h.1, wf_wfx r h.2⟩
+  | .str _, h | .prim _, h | .cvar _ _, h | .access _ _, h | .block _ _, h | .scoped _ _ _ _, h => by simp [WF] at h
+theorem wfs_wfxs : (ts : List PExp) → WF.WFs ts → WFx.WFxs ts
+  | [], _ => by simp [WFx.WFxs]
+  | t :: ts, h => by
+    simp only [WF.WFs] at h
+    simp only [WFx.WFxs]
+    exact ⟨wf_wfx t h.1, wfs_wfxs ts h.2⟩
 end
 
 end Rooc.Syntax.Proofs
